@@ -231,6 +231,15 @@ func runWriter(c *core.Ctx, kind string, workers int, yield bool) {
 			var ids []string
 			for _, o := range arrJ {
 				ids = append(ids, fmt.Sprint(o["id"]))
+				// the text attributes come back as they were given
+				if want, ok := wrx.NoteOf(fmt.Sprint(o["id"])); ok {
+					a, _ := o["annotations"].(map[string]any)
+					if got, _ := a["note"].(string); got != want {
+						det["id"], det["note_given"], det["note_read_back"] = o["id"], want, a["note"]
+						c.Violate("json-value:"+cls, "a text attribute of a record does not come back from the JSON output as it was given", det)
+						break
+					}
+				}
 			}
 			if d := itx.CompareSeq(ids, itx.IDs(recs)); d != "" {
 				det["got_ids"] = ids
@@ -439,7 +448,7 @@ func init() {
 		ID:    "C04",
 		Level: "exploration",
 		Rule: "each history = one real writer (WriteFasta/WriteFastq/WriteJSON/WriteCSV over CompressStream) handed a recording sink and an iterator fed with a partition of records into 0..6 batches (all permutations up to 4 (quick) / 5 (thorough) batches, random up to 27), subsets of empty batches, plain or gzip, closing or not; with ONE formatting worker the arrival order at the writer goroutine is the fed permutation (confirmed per run by the writer.arrival events), with 2-8 workers + yields the scheduler makes the order. " +
-			"Added later: the *ToFile entry points over existing (shorter, longer, previous output) files and in append mode, CSV automatic columns, 300-1100 batches with one batch overtaken by 255 or more others, four batches of 2 MiB (quick) / 24 MiB (thorough) records arriving with the first one last. One case in five at the debug log level (what is logged must not change what is written). " +
+			"Added later: the *ToFile entry points over existing (shorter, longer, previous output) files and in append mode, CSV automatic columns, 300-1100 batches with one batch overtaken by 255 or more others, four batches of 2 MiB (quick) / 24 MiB (thorough) records arriving with the first one last. One case in five at the debug log level (what is logged must not change what is written). One record in three carries a text attribute that a JSON writer has to escape (backslash-u, control characters, quotes, <>&, U+2028); it must come back from the JSON output as given. " +
 			"distinct_nontrivial = distinct (writer, partition, arrival order observed at the writer, compression, close mode) with an out-of-order arrival or an empty batch",
 		Assume:        []string{"encoding/json and encoding/csv decide well-formedness", "FormatFastaBatch/FormatFastqBatch of one batch is the reference rendering of that batch (C02 checks the rendering itself)"},
 		Subs:          subs,
